@@ -56,6 +56,18 @@ Fixpoint runs (f : fs) (rs : list (hook * nat)) : list code :=
   | r :: rest => let '(f', c) := run1 f r in c :: runs f' rest
   end.
 
+(* an interpreter told not to write bytecode (-B, PYTHONDONTWRITEBYTECODE) still reads the cache files that exist:
+   such a run loads exactly what a writing run would load and leaves the files as they are *)
+Definition run1w (f : fs) (r : hook * nat * bool) : fs * code :=
+  let '(h, s, w) := r in
+  let '(f', c) := run1 f (h, s) in ((if w then f' else f), c).
+
+Fixpoint runsw (f : fs) (rs : list (hook * nat * bool)) : list code :=
+  match rs with
+  | [] => []
+  | r :: rest => let '(f', c) := run1w f r in c :: runsw f' rest
+  end.
+
 Definition is_plain (c : code) : bool := match c with CPlain _ => true | _ => false end.
 Definition src_of (c : code) : nat := match c with CPlain s | CBear _ s => s end.
 
